@@ -102,8 +102,11 @@ ExpectedOutput(X, t) ==
   IF Hdr.strategy = "filter"
   THEN N(t, Kappa, ScaleSegs(InfoUpTo(X.segs, t), Kappa))
   ELSE N(t, Kappa, ScaleSegs(X.segs, Kappa))
+\* (two consecutive outputs at the SAME time - two checkpoints within eps of one step end are both reported at that step
+\*  end - are linked by the identity conditional)
 ExpectedCond(X, a, b) ==
-  B(a, b, Kappa, ScaleSegs(InfoUpTo(X.segs, a), Kappa), ScalePath(PathBetween(X.segs, a, b), Kappa))
+  IF a = b THEN IdC
+  ELSE B(a, b, Kappa, ScaleSegs(InfoUpTo(X.segs, a), Kappa), ScalePath(PathBetween(X.segs, a, b), Kappa))
 
 \* finalize marker: e.in = <<sol1 marginal id>> \o u ids ; e.i = output times ; e.sc = final scale code
 \* e.aux = stored conditional ids (smoothers), e.aux2 = <<posterior marginal id>> (smoothers)
